@@ -5,7 +5,9 @@ send_bytes / recv_bytes / recv_bytes_into, _check_*, _bad_message_length, the he
 the 16384 threshold, the maxsize test, the decision expressions of the _send/_recv loops) and
 proved equal to Model.Framing; (b) the real Connection runs over an oracle-scripted OS (short
 writes/reads, EINTR, I/O errors, peer closing at any byte) on pipes, socket pairs and memory,
-and every observable is compared with the proved model inside Coq."""
+and every observable is compared with the proved model inside Coq; buffers of every shape
+(multi-dimensional memoryviews, ctypes arrays, array.array casts, 0-dimensional ctypes scalars)
+are sent, and a send-side monitor checks that the wire is the framing of the bytes that were named."""
 import json
 import random
 from vlib import core
@@ -39,6 +41,8 @@ SIG_INTO = 'C13:recv_bytes_into-multibyte-items-misplaced-or-truncated'
 SIG_DIFF = 'C13:implementation-differs-from-proved-model'
 SIG_HUGE = 'C13:oversized-message-not-rejected-before-io'
 SIG_OBJ = 'C13:send-recv-objects-not-delivered-in-order'
+SIG_SHAPE = 'C13:send_bytes-multidim-byte-buffer-framed-by-first-dimension'
+SIG_SENDMON = 'C13:send-monitor'
 
 
 # ------------------------------------------------------------------ rendering
@@ -69,6 +73,8 @@ def c_ro(r):
 def c_sop(op):
     if op[0] == 'close':
         return 'CSClose'
+    if isinstance(op[2], list):          # ['shaped', how, itemsize, shape]
+        return '(CSendSh %s %s %s %s %s)' % (c_bsrc(op[1]), cz(op[2][2]), clist(op[2][3]), cz(op[3]), copt(op[4]))
     return '(CSend %s %s %s)' % (c_bsrc(op[1]), cz(op[3]), copt(op[4]))
 
 
@@ -77,6 +83,8 @@ def c_rop(op):
         return 'CRClose'
     if op[0] == 'recv':
         return '(CRecv %s)' % copt(op[1])
+    if len(op) > 4:                      # ['into', spec, itemsize, offset, how, shape]
+        return '(CIntoSh %s %s %s %s)' % (c_bsrc(op[1]), cz(op[2]), clist(op[5]), cz(op[3]))
     return '(CInto %s %s %s)' % (c_bsrc(op[1]), cz(op[2]), cz(op[3]))
 
 
@@ -122,6 +130,42 @@ def blen(spec):
     return len(spec[1]) if spec[0] == 'raw' else spec[1]
 
 
+def prod(xs):
+    out = 1
+    for x in xs:
+        out *= x
+    return out
+
+
+def shaped(how, it, shape):
+    return ['shaped', how, it, list(shape)]
+
+
+def rand_shaped_send(rng, lens):
+    """a send_bytes call on a buffer object that is not a 1-D buffer of bytes (or is one, built the
+    long way): multi-dimensional memoryviews over bytes / bytearray / array.array, nested ctypes
+    arrays, items of 1, 2, 4 bytes, dimensions of 0, ctypes scalars; offsets / sizes in the range
+    of rows and in the range of bytes, and just outside both"""
+    it = rng.choice([1, 1, 1, 1, 2, 4])
+    r = rng.random()
+    if r < 0.06:
+        shape = []
+    elif r < 0.16:
+        shape = [rng.choice([0, 1, 2, 5, 17])]
+    elif r < 0.75:
+        shape = [rng.choice([0, 1, 2, 3, 3, 4, 7, 16]), rng.choice([0, 1, 2, 2, 3, 4, 8])]
+    elif r < 0.93:
+        shape = [rng.choice([1, 2, 3]), rng.choice([1, 2, 3]), rng.choice([1, 2, 4])]
+    else:
+        shape = [rng.choice([16383, 16384, 16385, 16386]) if 16384 in lens or 16385 in lens else 40, 2]
+    how = 'ctypes' if (not shape or 0 in shape) else rng.choice(['mvcast', 'mvcast', 'ctypes', 'arraycast', 'bytearraycast'])
+    nbytes = it * prod(shape)
+    rows = shape[0] if shape else 1
+    off = rng.choice([0, 0, 0, 0, 1, 2, rows, rows + 1, nbytes, nbytes + 1, -1])
+    size = rng.choice([None, None, None, 0, 1, 2, rows - off, rows - off + 1, nbytes - off, nbytes - off + 1, -1])
+    return send(bspec(rng, nbytes), shaped(how, it, shape), off, size)
+
+
 def rand_wo(rng, big=False):
     out = []
     for _ in range(rng.choice([0, 0, 1, 2, 3, 5, 8, 12])):
@@ -160,6 +204,13 @@ def rand_case(rng, lens, transports):
         if rng.random() < 0.04:
             sops.append(['close'])
             closed = True
+            continue
+        if rng.random() < 0.12:
+            op = rand_shaped_send(rng, lens)
+            sops.append(op)
+            guess = op[4] if op[4] is not None and op[4] >= 0 else max(0, blen(op[1]) - max(0, op[3]))
+            wire_len += 4 + guess
+            msg_lens.append(min(guess, (op[2][3] or [1])[0]))
             continue
         n = rng.choice(lens)
         pre = rng.choice([0, 0, 0, 1, 3])
@@ -212,6 +263,14 @@ def rand_case(rng, lens, transports):
                 off = -1
             elif r < 0.08:
                 off = bytesize + 1
+            if rng.random() < 0.2:
+                # a buffer with more than one dimension (or none): len() is its first dimension
+                it = rng.choice([1, 1, 1, 2, 4])
+                shape = rng.choice([[3, 4], [2, 2, 3], [4, 1], [1, 8], [max(1, -(-n // it)), 2], [n + 1, 1], [], [0, 4], [2, 0]])
+                how = 'ctypes' if (not shape or 0 in shape) else rng.choice(['bytearraycast', 'arraycast', 'ctypes'])
+                off = rng.choice([0, 0, 0, 1, it, shape[0] if shape else 0, 2 * it, -1])
+                rops.append(['into', ['pat', it * prod(shape), rng.randrange(1000), 1], it, off, how, shape])
+                continue
             rops.append(['into', ['pat', bytesize, rng.randrange(1000), 1], it, off])
     return mk(transport, sflags, rand_wo(rng), sops, extra, cut, rflags, rand_ro(rng), rops)
 
@@ -290,6 +349,62 @@ def boundary_cases(tier):
     return out
 
 
+def shaped_cases(tier):
+    """send_bytes on buffers that are not 1-D buffers of bytes; always run.  The first group is
+    the finding (items of one byte, more than one dimension: the header counts rows), the second
+    group must be delivered intact (the code copies wide items to flat bytes; 1-D views)."""
+    grid = ['raw', list(range(12))]
+    nxt = send(['raw', [110, 101, 120, 116]])
+    two = [['recv', None], ['recv', None]]
+    out = []
+    for how in ('mvcast', 'ctypes', 'arraycast', 'bytearraycast'):
+        out.append(mk('mem', sops=[send(grid, shaped(how, 1, [3, 4])), nxt], rops=two))
+    out.append(mk('pipe', sops=[send(grid, shaped('mvcast', 1, [3, 4])), nxt], rops=two))
+    out.append(mk('socket', wo=[['a', 1], ['i'], ['a', 5]], sops=[send(grid, shaped('ctypes', 1, [2, 2, 3])), nxt],
+                  ro=[['c', 1], ['i'], ['c', 2]], rops=two))
+    out.append(mk('mem', sops=[send(grid, shaped('mvcast', 1, [3, 4]), 1, 1), nxt], rops=two))
+    out.append(mk('mem', sops=[send(grid, shaped('mvcast', 1, [3, 4]), 2, None), nxt], rops=two))
+    out.append(mk('mem', sops=[send(grid, shaped('mvcast', 1, [3, 4]), 4, 8), nxt], rops=two))      # bytes 4..12: rejected
+    out.append(mk('mem', sops=[send(grid, shaped('mvcast', 1, [12, 1])), nxt], rops=two))         # rows of one byte: intact
+    out.append(mk('mem', sops=[send(grid, shaped('mvcast', 1, [1, 12])), nxt], rops=two))
+    out.append(mk('mem', sops=[send(EMPTY, shaped('ctypes', 1, [3, 0])), nxt], rops=two))         # header 3, no bytes
+    out.append(mk('mem', sops=[send(EMPTY, shaped('ctypes', 1, [0, 4])), nxt], rops=two))
+    out.append(mk('mem', sops=[send(['raw', [5]], shaped('ctypes', 1, [])), nxt], rops=two))      # 0-dim: TypeError
+    # more than 16384 rows: the write-all loop counts rows and is fed bytes
+    tall = ['pat', 32770, 1, 1]
+    out.append(mk('mem', sops=[send(tall, shaped('mvcast', 1, [16385, 2])), nxt], rops=two))      # never returns
+    out.append(mk('pipe', wo=[['a', 4], ['a', 100000], ['i'], ['a', 3]],
+                  sops=[send(tall, shaped('mvcast', 1, [16385, 2]))], rops=two))
+    out.append(mk('mem', wo=[['a', 4], ['a', 16385]],                                             # returns after half
+                  sops=[send(tall, shaped('mvcast', 1, [16385, 2])), nxt], rops=two))
+    out.append(mk('mem', wo=[['a', 4], ['a', 1], ['a', 7]],
+                  sops=[send(['pat', 32768, 1, 1], shaped('ctypes', 1, [16384, 2])), nxt], rops=two))
+    # recv_bytes_into a multi-dimensional buffer (finding F-C13-1, same slice arithmetic): stored at
+    # the row offset // itemsize, BufferTooShort although it fits, "offset too large" inside the buffer
+    dots = ['pat', 12, 3, 1]
+    for how in ('bytearraycast', 'arraycast', 'ctypes'):
+        out.append(mk('mem', sops=[send(['raw', [88, 89]]), nxt], rops=[['into', dots, 1, 1, how, [3, 4]], ['recv', None]]))
+    out.append(mk('mem', sops=[send(['raw', [65, 66, 67, 68]]), nxt], rops=[['into', dots, 1, 0, 'bytearraycast', [3, 4]], ['recv', None]]))
+    out.append(mk('mem', sops=[send(['raw', [65, 66, 67]]), nxt], rops=[['into', dots, 1, 0, 'bytearraycast', [3, 4]], ['recv', None]]))
+    out.append(mk('mem', sops=[send(['raw', [65, 66]]), nxt], rops=[['into', dots, 1, 4, 'ctypes', [3, 4]], ['recv', None]]))
+    out.append(mk('pipe', sops=[send(['raw', [65, 66]]), nxt], rops=[['into', dots, 2, 2, 'arraycast', [3, 2]], ['recv', None]]))
+    out.append(mk('mem', sops=[send(['raw', [65, 66]]), nxt], rops=[['into', ['raw', [7]], 1, 0, 'ctypes', []], ['recv', None]]))
+    out.append(mk('mem', sops=[send(grid), nxt], rops=[['into', dots, 1, 0, 'bytearraycast', [12, 1]], ['recv', None]]))
+    # second group: flat views
+    for it, how, shape in ((2, 'mvcast', [3, 2]), (4, 'ctypes', [3, 1]), (2, 'arraycast', [2, 3])):
+        out.append(mk('mem', wo=[['a', 3], ['i']], sops=[send(grid, shaped(how, it, shape)), nxt], rops=two))
+    out.append(mk('mem', sops=[send(grid, shaped('ctypes', 1, [12])), nxt], rops=two))
+    out.append(mk('mem', sops=[send(['raw', [5, 0, 0, 0]], shaped('ctypes', 4, [])), nxt], rops=two))
+    out.append(mk('pipe', wo=[['a', 4], ['a', 1], ['a', 7]],
+                  sops=[send(['pat', 32772, 1, 1], shaped('mvcast', 2, [8193, 2]), 1, 32770), nxt], rops=two))
+    return out
+
+
+def is_finding_shape(c):
+    """items of one byte and a shape other than one dimension"""
+    return any(op[0] == 'send' and isinstance(op[2], list) and op[2][2] == 1 and len(op[2][3]) != 1 for op in c['sops'])
+
+
 def finding_cases():
     """inputs of the recorded finding (multi-byte item buffers); always run"""
     return [
@@ -300,7 +415,9 @@ def finding_cases():
 
 
 def has_wide_into(c):
-    return any(op[0] == 'into' and op[2] > 1 for op in c['rops'])
+    """recv_bytes_into a buffer whose first-dimension items are wider than a byte: multi-byte
+    items, or rows of a multi-dimensional buffer"""
+    return any(op[0] == 'into' and (op[2] > 1 or (len(op) > 4 and len(op[5]) != 1)) for op in c['rops'])
 
 
 def nontrivial(c, o):
@@ -315,7 +432,7 @@ def correspond(res, n):
     transports = ['mem'] * 5 + ['pipe'] * 3 + ['socket'] * 2
     if res.tier != 'quick':
         lens = lens + [65535, 65536, 65537, 70000]
-    cases = corpus + finding_cases() + boundary_cases(res.tier) + [rand_case(rng, lens, transports) for _ in range(n)]
+    cases = corpus + finding_cases() + shaped_cases(res.tier) + boundary_cases(res.tier) + [rand_case(rng, lens, transports) for _ in range(n)]
     outs = core.run_driver('conn_driver.py', cases, timeout=1500)
     terms = [to_coq(c, o) for c, o in zip(cases, outs)]
     # spread the heavy cases evenly over the parallel coqc jobs
@@ -333,7 +450,8 @@ def correspond(res, n):
     order = [i for b in bins for i in b]
     codes, _ = core.coq_eval('C13', HEADER, [[terms[i] for i in b] for b in bins], timeout=1500)
     codes = sorted((order[i], code) for i, code in codes)
-    hist = dict(transport={}, msg_len={}, recv_result={}, send_result={}, cut=0, wo_entries=0, ro_entries=0)
+    hist = dict(transport={}, msg_len={}, recv_result={}, send_result={}, cut=0, wo_entries=0, ro_entries=0,
+                send_buffer={})
     for c, o in zip(cases, outs):
         hist['transport'][c['transport']] = hist['transport'].get(c['transport'], 0) + 1
         hist['cut'] += c['cut'] is not None
@@ -341,6 +459,9 @@ def correspond(res, n):
         hist['ro_entries'] += len(c['ro'])
         for op in c['sops']:
             if op[0] == 'send':
+                kind = op[2]
+                bk = kind if not isinstance(kind, list) else '%s item=%d ndim=%d' % (kind[1], kind[2], len(kind[3]))
+                hist['send_buffer'][bk] = hist['send_buffer'].get(bk, 0) + 1
                 b = blen(op[1])
                 k = '0' if b == 0 else '1-15' if b < 16 else '16-16379' if b < 16380 else '16380-16400' if b <= 16400 else '>16400'
                 hist['msg_len'][k] = hist['msg_len'].get(k, 0) + 1
@@ -355,7 +476,8 @@ def correspond(res, n):
                 rule='corpus + enumerated boundaries (peer closing after every byte count of a 3-message stream; '
                      'lengths 0..10 and 16383..16385 on pipe/socket/memory; maxlength, buffer room, offsets, sizes at '
                      'each edge +-1; closed/wrong-direction handles; malformed headers) + seeded random cases '
-                     '(flags, 0-4 sends with offsets/sizes/buffer kinds, write script, optional garbage, optional '
+                     '(flags, 0-4 sends with offsets/sizes/buffer kinds incl. shaped buffers (multi-dimensional memoryviews, '
+                     'ctypes arrays, array casts, item sizes 1/2/4, zero dimensions, ctypes scalars), write script, optional garbage, optional '
                      'cut, receive ops with maxlength / buffers, read script); non-trivial = at least one message '
                      'completely sent and at least one read() call; distinct by canonical JSON',
                 input_histogram=hist)
@@ -365,16 +487,34 @@ def correspond(res, n):
                                    detail=json.dumps(c)[:1500]))
             break
     seen3 = False
+    seen45 = False
     for i, code in codes:
         c, o = cases[i], outs[i]
-        if code == 3:
+        if code in (4, 5):
+            if is_finding_shape(c):
+                if seen45:
+                    continue
+                seen45 = True
+            shapes = [op[2][1:] for op in c['sops'] if op[0] == 'send' and isinstance(op[2], list)]
+            res.alarms.append(dict(
+                signature=SIG_SHAPE if is_finding_shape(c) else SIG_SENDMON,
+                what=('send_bytes returned normally but the wire is not the framing of the bytes that were named '
+                      '(header = first dimension of the buffer, payload = all its bytes; the receiver gets a short '
+                      'message and loses the next one)' if code == 4 else
+                      'send_bytes never returns (write-all loop counts rows of the buffer but is fed bytes)')
+                     + ': buffers (how, itemsize, shape) %s, sends %s -> sender %s wire %s receiver %s'
+                     % (json.dumps(shapes), json.dumps([op[3:] for op in c['sops'] if op[0] == 'send']),
+                        json.dumps(o['sobs']), json.dumps(o['wire'])[:200], json.dumps(o['robs'])[:400]),
+                replay=dict(case=c, impl=o)))
+        elif code == 3:
             if seen3:
                 continue
             seen3 = True
             res.alarms.append(dict(
                 signature=SIG_INTO if has_wide_into(c) else 'C13:delivery-monitor',
                 what='recv_bytes_into returned normally but the message is not at [offset, offset+n) of the buffer '
-                     '(buffer items wider than one byte): %s -> %s' % (json.dumps(c['rops']), json.dumps(o['robs'])),
+                     '(buffer items wider than one byte, or rows of a multi-dimensional buffer): %s -> %s'
+                     % (json.dumps(c['rops']), json.dumps(o['robs'])),
                 replay=dict(case=c, impl=o)))
         elif code == 2:
             res.alarms.append(dict(signature=SIG_DIFF,
@@ -457,5 +597,7 @@ def replay(path):
     codes, _ = core.coq_eval('C13r', HEADER, [[to_coq(c, out)]])
     print('model agrees, property monitor holds' if not codes else
           {1: 'model differs in internal detail (code 1)', 2: 'model disagrees (code 2)',
-           3: 'model agrees; delivery monitor violated (code 3)'}.get(codes[0][1], codes[0][1]))
+           3: 'model agrees; delivery monitor violated (code 3)',
+           4: 'model agrees; send-side monitor violated: the wire is not the framing of the bytes named (code 4)',
+           5: 'model agrees; a send_bytes call never returns (code 5)'}.get(codes[0][1], codes[0][1]))
     return 1 if codes else 0
